@@ -31,11 +31,12 @@ class SVRP(Adapter):
         rnd = random.Random(2000 + seed)
         insts = []
         if tier == "quick":
-            plan = [(3, [(0, 0), (2, 0)], [((1, 2, 3), (1, 2, 3)), ((2, 2, 3), (1, 2, 3)), ((1, 3), (1, 2))], None)]
+            # ((2,), (3,)): a SINGLE technician (the last one from the start: its final return to the depot ends the episode)
+            plan = [(3, [(0, 0), (2, 0)], [((1, 2, 3), (1, 2, 3)), ((2, 2, 3), (1, 2, 3)), ((1, 3), (1, 2)), ((2,), (3,))], None)]
         else:
             plan = [(3, [(0, 0), (1, 2), (2, 0)],
                      [((1, 2, 3), (1, 2, 3)), ((2, 2, 3), (1, 2, 3)), ((1, 3, 3), (3, 2, 1)),
-                      ((1, 3), (1, 2)), ((2, 2), (2, 5)), ((1, 2, 3, 4), (1, 2, 3, 4))], None),
+                      ((1, 3), (1, 2)), ((2, 2), (2, 5)), ((1, 2, 3, 4), (1, 2, 3, 4)), ((2,), (3,))], None),
                     (4, [(0, 0), (2, 3), (3, 1)],
                      [((1, 2, 3), (1, 2, 3)), ((1, 3), (1, 2)), ((1, 2, 2), (1, 1, 4))], 30)]
         for (N, tmpl, techs, per) in plan:
